@@ -220,18 +220,28 @@ func next(in ssa.Instruction) []ssa.Instruction {
 // from is nil), reaches an instruction satisfying target, and passes no instruction satisfying
 // avoid (the target itself is not tested against avoid). It returns the witness path or nil.
 func PathAvoiding(f *ssa.Function, from ssa.Instruction, target, avoid func(ssa.Instruction) bool) []ssa.Instruction {
-	var start []ssa.Instruction
+	type pstate struct {
+		in   ssa.Instruction
+		pred *ssa.BasicBlock // set while inside a phi-test block entered from pred (jump threading)
+	}
+	var start []pstate
 	if from == nil {
 		if len(f.Blocks) == 0 || len(f.Blocks[0].Instrs) == 0 {
 			return nil
 		}
-		start = []ssa.Instruction{f.Blocks[0].Instrs[0]}
+		start = []pstate{{f.Blocks[0].Instrs[0], nil}}
 	} else {
-		start = next(from)
+		for _, n := range next(from) {
+			var pred *ssa.BasicBlock
+			if n.Block() != from.Block() && isTestBlock(n.Block()) {
+				pred = from.Block()
+			}
+			start = append(start, pstate{n, pred})
+		}
 	}
-	prev := map[ssa.Instruction]ssa.Instruction{}
-	seen := map[ssa.Instruction]bool{}
-	queue := []ssa.Instruction{}
+	prev := map[pstate]*pstate{}
+	seen := map[pstate]bool{}
+	queue := []pstate{}
 	for _, s := range start {
 		if !seen[s] {
 			seen[s] = true
@@ -239,27 +249,179 @@ func PathAvoiding(f *ssa.Function, from ssa.Instruction, target, avoid func(ssa.
 		}
 	}
 	for len(queue) > 0 {
-		in := queue[0]
+		st := queue[0]
 		queue = queue[1:]
+		in := st.in
 		if target(in) {
 			var path []ssa.Instruction
-			for x := in; x != nil; x = prev[x] {
-				path = append([]ssa.Instruction{x}, path...)
+			for x := &st; x != nil; x = prev[*x] {
+				path = append([]ssa.Instruction{x.in}, path...)
 			}
 			return path
 		}
 		if avoid != nil && avoid(in) {
 			continue
 		}
-		for _, n := range next(in) {
+		var succ []pstate
+		b := in.Block()
+		if i := Index(in); i+1 < len(b.Instrs) {
+			succ = []pstate{{b.Instrs[i+1], st.pred}}
+		} else {
+			targets := b.Succs
+			if ifi, ok := in.(*ssa.If); ok && st.pred != nil {
+				targets = feasibleSuccs(ifi, st.pred)
+			}
+			for _, s := range targets {
+				if len(s.Instrs) == 0 {
+					continue
+				}
+				var pred *ssa.BasicBlock
+				if isTestBlock(s) {
+					pred = b
+				}
+				succ = append(succ, pstate{s.Instrs[0], pred})
+			}
+		}
+		for _, n := range succ {
 			if !seen[n] {
 				seen[n] = true
-				prev[n] = in
+				cp := st
+				prev[n] = &cp
 				queue = append(queue, n)
 			}
 		}
 	}
 	return nil
+}
+
+// isTestBlock: a join block that only merges values and branches on them (phis, pure operators, If).
+func isTestBlock(b *ssa.BasicBlock) bool {
+	if len(b.Preds) < 2 || len(b.Instrs) == 0 {
+		return false
+	}
+	if _, ok := b.Instrs[len(b.Instrs)-1].(*ssa.If); !ok {
+		return false
+	}
+	hasPhi := false
+	for _, in := range b.Instrs[:len(b.Instrs)-1] {
+		switch in.(type) {
+		case *ssa.Phi:
+			hasPhi = true
+		case *ssa.BinOp, *ssa.UnOp, *ssa.DebugRef:
+			if u, ok := in.(*ssa.UnOp); ok && u.Op != token.NOT {
+				return false
+			}
+		default:
+			return false
+		}
+	}
+	return hasPhi
+}
+
+// feasibleSuccs: the successors of the test block's If that can be taken when the block was entered from
+// pred — the tested phi has a known outcome for that incoming edge (jump threading). Unknown → both.
+func feasibleSuccs(ifi *ssa.If, pred *ssa.BasicBlock) []*ssa.BasicBlock {
+	b := ifi.Block()
+	idx := -1
+	for i, p := range b.Preds {
+		if p == pred {
+			if idx >= 0 {
+				return b.Succs
+			}
+			idx = i
+		}
+	}
+	if idx < 0 {
+		return b.Succs
+	}
+	cond, neg := Cond(ifi.Cond, true)
+	incoming := func(v ssa.Value) (ssa.Value, bool) {
+		ph, ok := v.(*ssa.Phi)
+		if !ok || ph.Block() != b {
+			return nil, false
+		}
+		return ph.Edges[idx], true
+	}
+	known, val := false, false
+	if v, ok := incoming(cond); ok {
+		if k, isK := v.(*ssa.Const); isK && k.Value != nil && k.Value.Kind() == constant.Bool {
+			known, val = true, constant.BoolVal(k.Value)
+		}
+	} else if bo, ok := cond.(*ssa.BinOp); ok && (bo.Op == token.EQL || bo.Op == token.NEQ) && bo.Block() == b {
+		x, y := bo.X, bo.Y
+		if _, isPhi := incoming(y); isPhi {
+			x, y = y, x
+		}
+		if v, isPhi := incoming(x); isPhi {
+			eq, dec := false, false
+			switch {
+			case IsNilConst(y):
+				if IsNilConst(v) {
+					eq, dec = true, true
+				} else if nonNilAt(v, pred, b) {
+					eq, dec = false, true
+				}
+			default:
+				ky, ok1 := y.(*ssa.Const)
+				kv, ok2 := v.(*ssa.Const)
+				if ok1 && ok2 && ky.Value != nil && kv.Value != nil {
+					eq, dec = constant.Compare(kv.Value, token.EQL, ky.Value), true
+				}
+			}
+			if dec {
+				known = true
+				val = eq == (bo.Op == token.EQL)
+			}
+		}
+	}
+	if !known {
+		return b.Succs
+	}
+	if neg {
+		val = !val
+	}
+	if val {
+		return b.Succs[:1]
+	}
+	return b.Succs[1:2]
+}
+
+// nonNilAt: v is known to be non-nil on the edge at -> to (fresh allocation, or a dominating v != nil edge).
+func nonNilAt(v ssa.Value, at, to *ssa.BasicBlock) bool {
+	switch v.(type) {
+	case *ssa.MakeInterface, *ssa.Alloc, *ssa.MakeSlice, *ssa.MakeMap, *ssa.MakeChan, *ssa.MakeClosure:
+		return true
+	}
+	if len(at.Instrs) == 0 {
+		return false
+	}
+	guards := Guards(at.Instrs[len(at.Instrs)-1])
+	// the edge at -> to may itself be conditional
+	if ifi, ok := at.Instrs[len(at.Instrs)-1].(*ssa.If); ok && len(at.Succs) == 2 && at.Succs[0] != at.Succs[1] {
+		if at.Succs[0] == to {
+			guards = append(guards, Guard{ifi, true})
+		} else if at.Succs[1] == to {
+			guards = append(guards, Guard{ifi, false})
+		}
+	}
+	for _, g := range guards {
+		c, neg := Cond(g.If.Cond, g.Taken)
+		bo, ok := c.(*ssa.BinOp)
+		if !ok || (bo.Op != token.EQL && bo.Op != token.NEQ) {
+			continue
+		}
+		if !((bo.X == v && IsNilConst(bo.Y)) || (bo.Y == v && IsNilConst(bo.X))) {
+			continue
+		}
+		isNeq := bo.Op == token.NEQ
+		if neg {
+			isNeq = !isNeq
+		}
+		if isNeq {
+			return true
+		}
+	}
+	return false
 }
 
 // IsExit reports whether in leaves the function (Return or Panic).
